@@ -22,6 +22,9 @@ def check(prog, rep):
         rep.guarded(_structural_scan, prog, rep)  # the shape-based formulation of the same facts
     rep.guarded(_consumers, prog, rep)
     rep.guarded(rule_bridged_cells, prog, rep)
+    from . import shared
+    rep.guarded(shared.rule_decoration_columns_unused, prog, rep, "R10", "the bridge search reads names and coordinates only: occupancy and temperature factor never decide a bridge",
+                (), ("biomolecule.py::Biomolecule.update_ss_bridges",), 1, "the disulfide search")
 
 
 def rule_bridged_cells(prog, rep):
